@@ -105,11 +105,35 @@ func init() {
 
 	props["C03"] = &propDef{
 		run: func(c *Ctx) {
+			sdp := &specPool{}
+			defer sdp.close()
 			check := func(hc histCase, upto int, f []string) {
 				// the two places where the standard's own algorithms do not round-trip (states only its protocol setter reaches):
 				// a file URL whose first segment is a non-normalised drive letter (re-parsing writes X: for X|), and a file URL
 				// with the host "localhost" (re-parsing gives the empty host). Nothing else may change there either.
 				if f[fScheme] == "file" && (driveLetterSeg.MatchString(f[fPathname]) || f[fHostname] == "localhost") && f[fOpaque] == "0" {
+					// ... and only where the standard's own setter steps, run on the same history, reach this very state
+					legit := false
+					if upto >= 0 && upto < len(hc.ops) && len(hc.input) <= specMaxLen {
+						setters := true
+						for _, o := range hc.ops[:upto+1] {
+							if o.K != "s" || o.Slot != 0 {
+								setters = false
+							}
+						}
+						if setters {
+							sd := sdp.get()
+							sobs := specSetters(sd, hc.base, hc.input, hc.ops[:upto+1])
+							sdp.put(sd)
+							if len(sobs) == upto+2 && diffSpec(sobs[upto+1], Obs{Kind: "U", Fields: f}) == "" {
+								legit = true
+							}
+						}
+					}
+					if !legit {
+						c.Report(Finding{Class: "violation", What: fmt.Sprintf("a state the standard's algorithms do not reach (file URL with pathname %q, host %q) and whose serialization does not parse back to it", f[fPathname], f[fHostname]), Case: hc.Case(upto), Impl: strings.Join(f, " | "), Host: f[fHostname]})
+						return
+					}
 					e := append([]string(nil), f...)
 					pre := "file://" + f[fHost] + f[fPathname]
 					if !strings.HasPrefix(f[fHref], pre) || !strings.HasPrefix(f[fHrefNoFrag], pre) {
@@ -151,7 +175,7 @@ func init() {
 			famEdgeHist(c, defaultCfg, allButVerrs, "edge-pairs", false, eachState)
 		},
 		rule: "parse results (WPT + generated inputs, with and without base) and every state of generated setter histories (1-6 of the nine setters, values from component generators); for each state Parse(Href(false)) must succeed and reproduce all 19 observables; distinct = distinct (start, op list); non-trivial = start parsed and at least one setter applied, or parse got past the scheme state",
-		assume: []string{"the two states in which the standard's own algorithms do not round-trip (file URL with first segment X|, file URL with host localhost; both reachable only through the protocol setter) are recognised by shape, and there the re-parse must differ from the state in exactly that normalisation and nothing else"},
+		assume: []string{"the two states in which the standard's own algorithms do not round-trip (file URL with first segment X|, file URL with host localhost; both reachable only through the protocol setter) are recognised by shape, accepted only when the extracted Spec's setter steps reach the very same state on the same history, and there the re-parse must differ from the state in exactly that normalisation and nothing else"},
 	}
 
 	props["C04"] = &propDef{
